@@ -1497,6 +1497,11 @@ def C06_sched(c):
             # events already buffered when close starts, a stream that has not polled yet
             th = [[S(11), S(12), S(13), CLOSE, op("running")]] + [[DRIVE(i), DROPS(i)] for i in range(s_)]
             out += explore2("%s_n%ds%d_close_buffered" % (kind, n, s_), kind, n, s_, th, c, mr, rr, seed_extra=3, pre_streams=s_)
+        # the same with the sequence counters about to wrap: the buffered events straddle 2^32 when close starts
+        th = [[S(11), S(12), S(13), CLOSE, op("running")], [DRIVE(0), DROPS(0)]]
+        for sc in explore2("%s_n4s1_close_buffered_wrap" % kind, kind, 4, 1, th, c, max(20, mr // 5), max(20, rr // 5), seed_extra=4, pre_streams=1):
+            sc["origin"] = U32 - 2
+            out.append(sc)
         return out
 
     def build_m(kind):
@@ -1507,6 +1512,10 @@ def C06_sched(c):
             out += explore2("%s_s%dl%d_close" % (kind, s_, nl), kind, n, s_, th, c, mr, rr, pre_streams=nl)
             th = [[S(11), S(12), S(13), CLOSE, op("running")]] + [[DRIVE(i), DROPS(i)] for i in range(nl)]
             out += explore2("%s_s%dl%d_close_buffered" % (kind, s_, nl), kind, n, s_, th, c, mr, rr, seed_extra=3, pre_streams=nl)
+        th = [[S(11), S(12), S(13), CLOSE, op("running")], [DRIVE(0), DROPS(0)], [DRIVE(1), DROPS(1)]]
+        for sc in explore2("%s_s2l2_close_buffered_wrap" % kind, kind, 4, 2, th, c, max(20, mr // 5), max(20, rr // 5), seed_extra=4, pre_streams=2):
+            sc["origin"] = U32 - 2
+            out.append(sc)
         return out
     run_uni(c, UNI_KINDS, build_u, ["InvCloseWaits", "InvClosedAfterwards", "InvDeliveredAtMostOnce", "NoPanic"])
     run_multi(c, MULTI_KINDS, build_m, ["InvCloseWaits", "InvClosedAfterwards", "InvAtMostOncePerListener", "InvNoInvention", "NoPanic"], procs=5, tag="_close")
